@@ -24,6 +24,7 @@ pub enum TermAct {
     ReadErr,
     Garbage,
     DropHandles,
+    WriteErr,
 }
 
 #[derive(Clone, Copy, Debug, PartialEq, Eq, Hash)]
@@ -125,6 +126,16 @@ pub fn enabled(w: &World, a: &Alpha) -> Vec<Act> {
         for i in 0..n_ops {
             if a.holds && w.sim.ops[i].held {
                 v.push(Act::Release(i));
+            }
+            if a.streams && w.m[i].kind == Kind::Sub && !w.m[i].stream_dropped {
+                if w.m[i].stream.is_none() && w.sim.ops[i].rsp.is_some() {
+                    v.push(Act::TakeStream(i));
+                }
+                if let Some(s) = w.m[i].stream {
+                    if w.sim.streams[s].held {
+                        v.push(Act::ReleaseStream(i));
+                    }
+                }
             }
         }
         return v;
@@ -303,12 +314,18 @@ pub fn apply(w: &mut World, act: Act) {
         Act::Term(t) => match t {
             TermAct::UserDisconnect => {
                 w.start(0, Kind::Disc);
+                // from the submission on no other cause is injected (with the context held, which of two
+                // causes wins is the select!'s free choice)
+                if w.term.is_none() {
+                    w.term = Some(Term::UserDisconnect);
+                }
             }
             TermAct::ServerDisconnect { reason, form, props } => w.server_disconnect(reason, form, props),
             TermAct::Eof => w.eof(),
             TermAct::ReadErr => w.read_err(),
             TermAct::Garbage => w.garbage(&[0x00, 0x00]),
             TermAct::DropHandles => w.drop_all_handles(),
+            TermAct::WriteErr => w.write_err(),
         },
         Act::DropCtx => w.drop_ctx(),
         Act::HoldCtx => {
